@@ -21,6 +21,7 @@ CONSTANTS Nodes,        \* universe of frame names (strings)
           Gens,         \* matrices offered to Update
           GeomNames,    \* geometry names that can be attached to a node
           MaxDepth,     \* bound on history length
+          InitShape,    \* "empty", or "chain": start from the forest Base0 -> n1 -> n2 -> ... already built
           Ghost,        \* TRUE: re-parenting leaves the old (parent,child) edge entry (as found in 4.6.5)
           ForgetDirty,  \* TRUE: mutators do not reset the hash memo (spec self-test mutant)
           KeepPaths     \* TRUE: path cache never cleared (spec self-test mutant)
@@ -109,9 +110,16 @@ NoTouch == UNCHANGED <<ver, hmemo>>
 Log(rec) == hist' = Append(hist, rec)
 
 \* ---------------------------------------------------------------- actions
-Init == /\ parent = [n \in Nodes |-> None]
-        /\ edge = [p \in Pairs |-> NoM]
-        /\ present = {}
+\* a fixed chain through all nodes (in CHOOSE order) hanging from Base0, every edge the first generator
+ChainOrder == LET RECURSIVE Ord(_)
+                  Ord(S) == IF S = {} THEN <<>> ELSE LET x == CHOOSE x \in S : TRUE IN <<x>> \o Ord(S \ {x})
+              IN <<Base0>> \o Ord(Nodes \ {Base0})
+ChainParent == [n \in Nodes |-> IF n = Base0 THEN None
+                                ELSE ChainOrder[(CHOOSE k \in 1..Len(ChainOrder) : ChainOrder[k] = n) - 1]]
+G0 == CHOOSE m \in Gens : TRUE
+Init == /\ parent = IF InitShape = "chain" THEN ChainParent ELSE [n \in Nodes |-> None]
+        /\ edge = [p \in Pairs |-> IF InitShape = "chain" /\ ChainParent[p[2]] = p[1] THEN G0 ELSE NoM]
+        /\ present = IF InitShape = "chain" THEN Nodes ELSE {}
         /\ geom = [n \in Nodes |-> None]
         /\ base = Base0
         /\ pcache = {} /\ hmemo = -1 /\ ver = 0 /\ xid = -1 /\ xcache = {}
@@ -253,7 +261,10 @@ EdgeSeq == LET S == {q \in Pairs : parent[q[2]] = q[1]}
                          ELSE LET q == CHOOSE q \in T : TRUE IN
                               <<[u |-> q[1], v |-> q[2], m |-> edge[q]]>> \o Ser(T \ {q})
            IN Ser(S)
-Emit == PrintT(ToJson([h |-> hist, sweep |-> SweepSeq, edges |-> EdgeSeq, base |-> base]))
+Emit == PrintT(ToJson([h |-> hist, sweep |-> SweepSeq, edges |-> EdgeSeq, base |-> base,
+                       init |-> IF InitShape = "chain"
+                                THEN [k \in 1..(Len(ChainOrder) - 1) |-> [u |-> ChainOrder[k], v |-> ChainOrder[k + 1], m |-> G0]]
+                                ELSE <<>>]))
 EmitAll  == Emit
 EmitLeaf == (Len(hist) = MaxDepth) => Emit
 \* ------------------------------------------------ constants for the configs
